@@ -11,6 +11,9 @@ import PpciVerif.Spec.RelocSem
   rtarget <isa> <type> <hex> <P>     SPEC: address designated by the relocated bytes at P   → ok <int> | ok none
   rrep    <isa> <type> <S> <A> <P>   SPEC: representable                                    → ok true|false
   rhilo   <hexhi> <hexlo>            SPEC: value computed by a riscv hi/lo instruction pair → ok <int>
+  dorels <isa> <secAddr> <hexdata> <type:offset:addend:S;…>
+        model of Linker.do_relocations on one section with SEVERAL relocations, each against its own (absolute) symbol of
+        value S and with ITS OWN addend → ok <hexdata'> | err E
   disjoint <isa> <type:sect:offset;…>  the decidable hypothesis of the list-level theorem: relocation sites pairwise disjoint → ok true|false
   roff    <isa> <type> <hex>         SPEC: the pc-relative offset the field encodes (what a disassembler prints) → ok <int>
 -/
@@ -45,6 +48,23 @@ def step (line : String) : String :=
             | some s => "ok " ++ toHex s.data
             | none => "bad-op"
     | _, _, _, _, _ => "bad-op"
+  | ["dorels", isa, sa, h, l] =>
+    let parse (ix : Nat × String) : Option (RelocEntry × Sym) :=
+      match ix.2.splitOn ":" with
+      | [ty, off, a, sv] =>
+        match nat? off, int? a, int? sv with
+        | some o, some a, some sv => some (⟨ty, ix.1, "code", o, a⟩, ⟨ix.1, false, sv, none⟩)
+        | _, _, _ => none
+      | _ => none
+    let items := l.splitOn ";"
+    match int? sa, fromHex h, ((List.range items.length).zip items).mapM parse with
+    | some sa, some bs, some rs =>
+      match doRelocations isa (rs.map (·.2)) [⟨"code", sa, bs⟩] (rs.map (·.1)) with
+      | .error e => "err " ++ e.name
+      | .ok secs' => match getSec secs' "code" with
+        | some sec => "ok " ++ toHex sec.data
+        | none => "bad-op"
+    | _, _, _ => "bad-op"
   | ["disjoint", isa, l] =>
     let parse (x : String) : Option RelocEntry :=
       match x.splitOn ":" with
